@@ -15,14 +15,16 @@
        signature code    : Sig.sig_code of the signature bytes (signature.Code());
        t_signer          : the first key of a finite key list for which the SYMBOLIC signature
                            check of Signing.v succeeds on the byte-exact signing input.
-     view_block  : bstr -> Validator.token   = view_token of token_decode, the empty token for a
-                           block that is not a UCAN (what the accessors return over a zero model).
+     view_block  : bstr -> Validator.token   = view_token of the TYPED decoding of the block
+                           (TokenBytes.token_decode_typed: the dag-cbor decoder driving bindnode's
+                           assemblers for the UCAN schema), the empty token for a block that is
+                           not a UCAN (what the accessors return over the zero model).
 
    The correspondence (Check_TokenView.v) evaluates view_block on the real root block of every
    token of every world and compares the result field by field with the term the harness
    rendered from the Go accessors. *)
 From Coq Require Import ZifyBool ZifyN ZifyNat.
-From Ucanto Require Import Base Varint VarintMore Ipld Cbor Formats BaseEnc JsonText Sig Did DagJson Signing.
+From Ucanto Require Import Base Varint VarintMore Ipld Cbor Formats BaseEnc JsonText Sig Did DagJson Signing TokenBytes.
 From Ucanto Require Import Pattern Time Validator ValidatorSpec.
 Open Scope N_scope.
 
@@ -67,7 +69,7 @@ Section View.
   Definition view_cval (v : ipld) : cval :=
     match v with
     | ILink c => VLink (num c)
-    | IInt z => VInt z
+    | IInt z => if (z <? 2 ^ 63)%Z then VInt z else VOtherKind      (* AsInt fails on a uint64 above int64 *)
     | IString s => VStr s
     | IList l => match omap as_string l with Some ss => VList ss | None => VOtherKind end
     | IMap m => match omap str_entry m with Some sm => VMap sm | None => VOtherKind end
@@ -99,6 +101,8 @@ End View.
    the zero UCANModel): undefined principals, no capability, no proof, no expiry, code 0 *)
 Definition empty_token : token := mkTok DUndef DUndef [] [] None 0%Z 0 None.
 
+Definition norm_fct_eq (f : option (list (list (bstr * ipld)))) : Prop := none_if_empty f = f.
+
 Section Sym.
   Variable num : bstr -> link.
   Variable keys : list N.
@@ -108,7 +112,7 @@ Section Sym.
   Definition view_did : bstr -> Validator.did := view_did_with did_string.
   Definition view_token : utoken -> token := view_token_with num did_string keys (sig_valid valid alg_of).
   Definition view_block (b : bstr) : token :=
-    match token_decode b with Some t => view_token t | None => empty_token end.
+    match token_decode_typed b with Some t => view_token t | None => empty_token end.
 
   (* -------------------------------------------------------------- *)
   (* 1. the validator's token is a function of the stored bytes      *)
@@ -157,15 +161,43 @@ Section Sym.
     option_map view_token (token_decode (token_bytes t)) = Some (view_token (canon_token t)).
   Proof using. intros W B. rewrite (token_transport t W B). reflexivity. Qed.
 
+  (* the Go model reads an empty optional list as absent; the view does not see the difference
+     (unless the facts are an empty list, which changes the signed payload) *)
+  Lemma view_token_norm t : u_fct t <> Some [] -> view_token (norm_token t) = view_token t.
+  Proof using.
+    intros NF. unfold view_token, view_token_with, norm_token, prf_list, view_nbf.
+    cbn [u_v u_iss u_aud u_s u_att u_prf u_exp u_fct u_nnc u_nbf].
+    assert (P : match none_if_empty (u_prf t) with Some l => l | None => [] end
+                = match u_prf t with Some l => l | None => [] end).
+    { destruct (u_prf t) as [[|x l]|]; reflexivity. }
+    rewrite P. f_equal. unfold view_signer.
+    assert (E : norm_fct_eq (u_fct t)) by (unfold norm_fct_eq; destruct (u_fct t) as [[|x l]|]; [contradiction | reflexivity | reflexivity]).
+    unfold norm_fct_eq in E.
+    induction keys as [|k r IH]; [reflexivity|]. cbn [find].
+    assert (S : sig_valid valid alg_of
+                  (mkU (u_v t) (u_iss t) (u_aud t) (u_s t) (u_att t) (none_if_empty (u_prf t)) (u_exp t)
+                       (none_if_empty (u_fct t)) (u_nnc t) (u_nbf t)) k = sig_valid valid alg_of t k).
+    { unfold sig_valid, signing_input, signable, signable_with, sign_payload_opt, payload_ipld, prf_list.
+      cbn [u_v u_iss u_aud u_s u_att u_prf u_exp u_fct u_nnc u_nbf]. rewrite P, E. reflexivity. }
+    rewrite S, IH. reflexivity.
+  Qed.
+
+  (* the same through the typed decoder, for tokens the library can issue (Go ints, a present nb) *)
   Corollary view_block_bytes t :
-    wf_ipld (token_ipld t) = true -> in_budget (token_ipld t) = true ->
+    wf_ipld (token_ipld t) = true -> in_budget (token_ipld t) = true -> token_typed_ok t = true ->
+    u_fct t <> Some [] ->
     view_block (token_bytes t) = view_token (canon_token t).
-  Proof using. intros W B. unfold view_block. rewrite (token_transport t W B). reflexivity. Qed.
+  Proof using.
+    intros W B T NF. unfold view_block. rewrite (token_transport_typed t W B T).
+    apply view_token_norm. unfold canon_token. cbn [u_fct].
+    destruct (u_fct t) as [[|x l]|]; cbn [option_map map]; [contradiction | discriminate | discriminate].
+  Qed.
 
   Corollary view_block_bytes_id t :
-    wf_ipld (token_ipld t) = true -> in_budget (token_ipld t) = true -> caps_canonical t ->
+    wf_ipld (token_ipld t) = true -> in_budget (token_ipld t) = true -> token_typed_ok t = true ->
+    u_fct t <> Some [] -> caps_canonical t ->
     view_block (token_bytes t) = view_token t.
-  Proof using. intros W B H. rewrite (view_block_bytes t W B). apply view_token_canon_id. exact H. Qed.
+  Proof using. intros W B T NF H. rewrite (view_block_bytes t W B T NF). apply view_token_canon_id. exact H. Qed.
 
   (* the bytes determine the validator's token *)
   Theorem view_bytes_determine a b :
@@ -174,10 +206,10 @@ Section Sym.
   Proof using. intros Wa Wb E. rewrite (token_bytes_inj a b Wa Wb E). reflexivity. Qed.
 
   (* every block has a view; a block that decodes is viewed through its decoding *)
-  Lemma view_block_decoded b t : token_decode b = Some t -> view_block b = view_token t.
+  Lemma view_block_decoded b t : token_decode_typed b = Some t -> view_block b = view_token t.
   Proof using. intros H. unfold view_block. rewrite H. reflexivity. Qed.
 
-  Lemma view_block_undecodable b : token_decode b = None -> view_block b = empty_token.
+  Lemma view_block_undecodable b : token_decode_typed b = None -> view_block b = empty_token.
   Proof using. intros H. unfold view_block. rewrite H. reflexivity. Qed.
 
   (* -------------------------------------------------------------- *)
@@ -248,8 +280,8 @@ Section Sym.
   Theorem view_decode_both t :
     wf_ipld (token_ipld t) = true -> in_budget (token_ipld t) = true ->
     option_map view_token (token_decode (token_bytes t)) = Some (view_token (canon_token t))
-    /\ view_block (token_bytes t) = view_token (canon_token t).
-  Proof using. intros W B. split; [apply view_token_decode | apply view_block_bytes]; assumption. Qed.
+    /\ (token_typed_ok t = true -> u_fct t <> Some [] -> view_block (token_bytes t) = view_token (canon_token t)).
+  Proof using. intros W B. split; [apply view_token_decode | intros T NF; apply view_block_bytes]; assumption. Qed.
 
   Theorem view_canon_both t :
     view_token (canon_token t) =
@@ -443,7 +475,7 @@ Section Bytes.
      rebuilt from the decoded fields — under the verifier's key, for a verifier reporting the
      token's stated issuer *)
   Definition sig_ok_bytes (d : dlg) (t : token) (v : verifier) : Prop :=
-    exists b ut, B (d_link d) = Some b /\ token_decode b = Some ut /\
+    exists b ut, B (d_link d) = Some b /\ token_decode_typed b = Some ut /\
       t = view_token num keys valid alg_of ut /\
       view_did (u_iss ut) = v_did v /\ sig_code (u_s ut) = v_sigcode v /\ In (v_key v) keys /\
       valid (v_key v) (sign_payload (alg_of (v_key v)) ut) (u_s ut) = true /\
@@ -453,7 +485,7 @@ Section Bytes.
   Proof using.
     unfold tok, store_of. destruct (B (d_link d)) as [b|] eqn:Eb; [|discriminate].
     cbn [option_map]. intros T [Ei [Ec Es]]. inversion T as [T']. clear T.
-    destruct (token_decode b) as [ut|] eqn:D.
+    destruct (token_decode_typed b) as [ut|] eqn:D.
     - rewrite (view_block_decoded num keys valid alg_of b ut D) in *. subst t.
       destruct (view_signer_sound num keys valid alg_of ut (v_key v) Es) as [I [_ V]].
       destruct (view_signer_message num keys valid alg_of ut (v_key v) Es) as [_ [_ M]].
